@@ -164,7 +164,8 @@ PROPS["C03"] = dict(
     level_note="Trusted: Lean kernel + standard axioms; biodivine's sat_valuations assumed to enumerate each satisfying valuation once (observed); composition theorem stated, not yet proved; correspondence differential (n <= 7).",
     technique="Lean 4 proof (reduct / least-fixpoint characterisation of the stability test) + correspondence check + brute-force specification oracle",
     jobs=[Job("adf", 1200, 40000, size=6, size_thorough=7, extra=("sem",),
-              relevant=heads("build", "adopt", "stable", "stablepre", "stablerew", "stablerew2", "adump", "wfcheck"), nontrivial=nt_adf)],
+              relevant=heads("build", "adopt", "stable", "stablepre", "stablerew", "stablerew2", "adump", "wfcheck"), nontrivial=nt_adf),
+          Job("adf", 200, 8000, size=5, size_thorough=6, extra=("present",), relevant=heads("present", "presented"), nontrivial=nt_adf, label="adf-orders")],
     rule=SEM_RULE,
     assumptions=["well-formed ADFs"],
 )
